@@ -95,6 +95,11 @@ func New(id string) *Check {
 		}
 	}
 	c.Deadline = c.start.Add(*budget)
+	if s := os.Getenv("VERIF_DEADLINE_UNIX"); s != "" {
+		if u, err := strconv.ParseInt(s, 10, 64); err == nil {
+			c.Deadline = time.Unix(u, 0)
+		}
+	}
 	if b, err := os.ReadFile(filepath.Join(Root, "known_findings.json")); err == nil {
 		var ff findingsFile
 		if err := json.Unmarshal(b, &ff); err != nil {
